@@ -7,6 +7,8 @@ Driver for the snapshot-persistence model (C14).  One request per line, one repl
   view  <lg> <hist> <b> <k>       -> ok <dirview> <restored> <npending>   process crash after k micro-steps
   power <lg> <hist> <b> <k> <p>   -> ok <dirview> <restored>              power loss, p pending directory ops on disk
   clean <lg> <hist>               -> ok <dirview> <restored>              restart after the whole history
+  chain <lg> <hist> <b> <k> <b2> <k2> -> ok <dirview> <restored>          crash after k steps of the persist of b, restart,
+                                                                          then crash after k2 steps of the persist of b2
   spec  <hist> <b> <restored>     -> ok | viol                            specCrash on an observed restart
 
   lg := 0 (repaired code) | 1 (pinned tree)      hist := - | <b>(,<b>)*
@@ -75,6 +77,12 @@ def handle (_ : Unit) (line : String) : Unit × String :=
           let fs := run ((persistSteps l b).take k) (persistAll l hist)
           ((), s!"ok {powerView p fs} {showRestored (restorePower p fs)}")
       | _, _, _, _, _ => ((), "bad-op")
+  | ["chain", lg, h, b, k, b2, k2] =>
+      match parseLg? lg, parseHist? h, b.toNat?, k.toNat?, b2.toNat?, k2.toNat? with
+      | some l, some hist, some b, some k, some b2, some k2 =>
+          let fs := run ((persistSteps l b2).take k2) (run ((persistSteps l b).take k) (persistAll l hist))
+          ((), s!"ok {processView fs} {showRestored (restoreProcess fs)}")
+      | _, _, _, _, _, _ => ((), "bad-op")
   | ["clean", lg, h] => match parseLg? lg, parseHist? h with
       | some l, some hist =>
           let fs := persistAll l hist
